@@ -7,7 +7,7 @@ From Coq Require Import List NArith Bool.
 From Wbxml Require Import Model.Codec Model.TablesDefs Gen.TablesData Model.Parser Model.Spec Model.TreeBuild Model.TreeConv
      Proofs.ParserDepth Proofs.ParserProofsDoc Proofs.ParserProofsTyped Proofs.ParserProofsWv
      Proofs.TreeBuildProofs Proofs.TreeBuildProofs2 Proofs.TreeBuildProofs3 Proofs.TreeBuildEmbed Proofs.TreeRoundTrip
-     Proofs.TreeRoundTripWide Proofs.ConvRoundTrip Proofs.ConvWideUnforced Proofs.TreeRoundTripUnion.
+     Proofs.TreeRoundTripWide Proofs.ConvRoundTrip Proofs.ConvWideUnforced Proofs.TreeRoundTripUnion Proofs.TreeBuildData Proofs.ConvWideUnforced.
 From Wbxml Require Proofs.EncWbxmlAbs5 Proofs.EncWbxmlDenote5 Proofs.EncWbxmlDenote6 Proofs.EncWbxmlClass6 Proofs.EncWbxmlUnion Model.EncWbxmlTables Model.XmlFront.
 From Wbxml Require Model.EncXml Model.XmlRead Proofs.EncXmlProofs Proofs.EncXmlIndent.
 From Wbxml Require Model.EncWbxml Model.TreeNorm Proofs.EncWbxmlProofs Proofs.EncWbxmlSerialize Proofs.EncWbxmlDenote.
@@ -338,6 +338,103 @@ Example C03b_ex_roundtrip_union :
           [(AttrTok 0 13 (XmlFront.bs "href"), XmlFront.bs "http://www.xyz.com/"); (AttrTok 0 10 (XmlFront.bs "created"), XmlFront.bs "1999-06-25T15:23:15Z")]
           [TText (XmlFront.bs "hello")]]].
 Proof. repeat (split; [vm_compute; reflexivity|]). vm_compute. reflexivity. Qed.
+
+(* C03b (9) — THROUGH <Data>: the builder's frames threaded through the tree (Proofs/TreeBuildData.v).  The forest of the union tree as
+   items (kids_union: an element, or one run of character data - a text's canonical character data, a CDATA section's text, an
+   embedded tree's octets); TreeBuildData.bis is the builder written on that forest, frame by frame: character data under an ordinary
+   element is a text node (merged with a preceding one); a Data element with ONE run of character data becomes, by syncml_data_type
+   of the frames built so far (Meta/Type of the parent or grandparent, the Add/Replace hack), <Data>text</Data>, <Data><![CDATA[..]]>
+   </Data> (the CDATA node RE-CREATED), <Data>sub-tree</Data> (the embedded document parsed with the language not forced and built one
+   level down), or the text when that fails or beyond WBXML_MAX_EMBEDDED_DEPTH (chars_node).  iwf: a Data element holds one run of
+   character data or none of its own.  C03b_build_union_through_data: the builder applied to the events the encoder's union theorem
+   specifies gives the root with the children of the frame bis computes - no `no_data` hypothesis. *)
+Theorem C03b_data_element_by_type : forall tbl lv cs t a b st p up r c, b_stack st = p :: up -> f_cdata p = None -> b_charset st = cs ->
+  TreeBuildData.chars_node tbl lv cs (syncml_data_type (mk_frame t a [] None :: p :: up)) b = Some c ->
+  build_from tbl lv (EvStartElt t a :: EvChars b :: EvEndElt t :: r) st
+  = build_from tbl lv r (TreeBuildData.with_top st (mk_frame (f_tag p) (f_attrs p) (f_done p ++ [TElt t a c]) None) up).
+Proof. exact TreeBuildData.data_elt_step. Qed.
+Print Assumptions C03b_data_element_by_type.
+
+Theorem C03b_builder_on_forest : forall tbl lv cs lid t a kids f',
+  forallb TreeBuildData.iwf kids = true -> (not_data t = true \/ forallb TreeBuildData.is_ielt kids = true) ->
+  TreeBuildData.bis tbl lv cs [] (mk_frame t a [] None) kids = Some f' ->
+  build tbl lv (EvStartDoc cs lid :: (EvStartElt t a :: flat_map TreeBuildData.ev_of kids ++ [EvEndElt t]) ++ [EvEndDoc])
+  = BOk (mk_wtree lid cs (Some (TElt t a (f_done f')))).
+Proof. exact TreeBuildData.build_doc. Qed.
+Print Assumptions C03b_builder_on_forest.
+
+Theorem C03b_build_union_through_data : forall tblb TBL L o lv tag attrs ch f',
+  let e := EncWbxml.enc_env (EncWbxmlDenote2.to_blang L) o in
+  let t := EncWbxmlTblOk.tag_event tag in
+  let a := if EncWbxml.has_attr_table e then map (EncWbxmlDenote5.attr_event5 (EncWbxmlUnion.acan_u L tag attrs)) attrs else [] in
+  forallb TreeBuildData.iwf (kids_union tblb L o tag ch) = true ->
+  (not_data t = true \/ forallb TreeBuildData.is_ielt (kids_union tblb L o tag ch) = true) ->
+  TreeBuildData.bis TBL lv 106 [] (mk_frame t a [] None) (kids_union tblb L o tag ch) = Some f' ->
+  build TBL lv (EncWbxmlClass6.doc_events6 tblb L e (EncWbxmlUnion.acan_u L) (EncWbxmlUnion.tev_u L e (EncWbxml.o_keep_ws o)) (EncWbxml.NElt tag attrs ch))
+  = BOk (mk_wtree (l_id L) 106 (Some (TElt t a (f_done f')))).
+Proof. exact build_union_through_data. Qed.
+Print Assumptions C03b_build_union_through_data.
+
+(* composed with the parser: PARTIAL in the hypothesis data_events_exact - the parser's events ARE the specified ones.  The encoder's
+   union theorem gives them modulo merge_chars only, and inside a Data element whose type is an embedded document the builder is not
+   indifferent to how the character data is cut (each piece would be parsed by itself); the parser reports one OPAQUE as one event,
+   but exporting that is the encoder side's. *)
+Theorem C03b_roundtrip_union_through_data_partial : forall tblb TBL L o lv tag attrs ch f' bs forced,
+  let e := EncWbxml.enc_env (EncWbxmlDenote2.to_blang L) o in
+  let t := EncWbxmlTblOk.tag_event tag in
+  let a := if EncWbxml.has_attr_table e then map (EncWbxmlDenote5.attr_event5 (EncWbxmlUnion.acan_u L tag attrs)) attrs else [] in
+  parse_with TBL forced 0 (S (length bs)) bs
+    = POk (EncWbxmlClass6.doc_events6 tblb L e (EncWbxmlUnion.acan_u L) (EncWbxmlUnion.tev_u L e (EncWbxml.o_keep_ws o)) (EncWbxml.NElt tag attrs ch)) ->
+  forallb TreeBuildData.iwf (kids_union tblb L o tag ch) = true ->
+  (not_data t = true \/ forallb TreeBuildData.is_ielt (kids_union tblb L o tag ch) = true) ->
+  TreeBuildData.bis TBL lv 106 [] (mk_frame t a [] None) (kids_union tblb L o tag ch) = Some f' ->
+  tree_from_wbxml TBL forced 0 lv bs = BOk (mk_wtree (l_id L) 106 (Some (TElt t a (f_done f')))).
+Proof. exact roundtrip_union_through_data. Qed.
+Print Assumptions C03b_roundtrip_union_through_data_partial.
+
+(* the UNFORCED reading on the union (documents without Data): lang_choiceW, with the public-id field of the encoder's abstract
+   document as the NAMED hypothesis union_pub_field (proved for the wide fragment: C03_encoder_public_id_field; for the union it is
+   to be exported next to C06_strict_decoding_yields_normalised_source) *)
+Theorem C03b_roundtrip_union_unforced_partial : forall tblb TBL L o tag attrs ch bs forced,
+  let e := EncWbxml.enc_env (EncWbxmlDenote2.to_blang L) o in
+  EncWbxmlDenote2.vals_ok L = true -> EncWbxmlUnion.side_u L = true -> EncWbxmlAbs5.tag_tbl_ok e = true ->
+  EncWbxmlDenote6.tree_ok6 L (EncWbxmlUnion.aok_u L) (EncWbxmlUnion.tok_u L (EncWbxml.o_keep_ws o)) (EncWbxmlUnion.cok_plain L)
+                           (EncWbxmlUnion.eok_plain tblb e L) (EncWbxml.is_syncml (EncWbxml.e_lang e)) 0 true None (EncWbxml.NElt tag attrs ch) = true ->
+  find (fun x => l_id x =? l_id L) TBL = Some L -> lang_choiceW TBL L e forced -> union_pub_field TBL L e bs ->
+  EncWbxml.o_version o < 4 -> EncWbxml.header_public_id e < 4294967296 -> EncWbxml.header_public_id e <> 0 ->
+  (match EncWbxmlAbs.header_pid e with Some p => EncWbxmlDenote2.okb p = true | None => True end) ->
+  EncWbxml.len bs < 4294967296 ->
+  EncWbxml.enc_wbxml tblb (EncWbxmlDenote2.to_blang L) o [EncWbxml.NElt tag attrs ch] = EncWbxml.EOk bs ->
+  no_data (EncWbxmlClass6.doc_events6 tblb L e (EncWbxmlUnion.acan_u L) (EncWbxmlUnion.tev_u L e (EncWbxml.o_keep_ws o)) (EncWbxml.NElt tag attrs ch)) = true ->
+  forall ef, tree_from_wbxml TBL forced 0 ef bs = BOk (mk_wtree (l_id L) 106 (hd_error (tn_union tblb L o (EncWbxml.NElt tag attrs ch)))).
+Proof. exact roundtrip_union_choice. Qed.
+Print Assumptions C03b_roundtrip_union_unforced_partial.
+
+(* through <Data> by computation: vObject data under Add/Item/Data - the CDATA node is re-created; the tree the C model builds from the
+   encoder's bytes is the tree bis computes *)
+Definition exd_L : lang := nth 19 main_table (mk_lang 0 0 None None None None None None None None).
+Definition exd_o := EncWbxml.mk_opts 2 false false false.
+Definition exd_root : EncWbxml.node :=
+  EncWbxml.NElt (EncWbxml.TagTok 0 45 0 (XmlFront.bs "SyncML")) []
+    [EncWbxml.NElt (EncWbxml.TagTok 0 5 0 (XmlFront.bs "Add")) []
+       [EncWbxml.NElt (EncWbxml.TagTok 0 20 0 (XmlFront.bs "Item")) []
+          [EncWbxml.NElt (EncWbxml.TagTok 0 15 0 (XmlFront.bs "Data")) [] [EncWbxml.NCData [EncWbxml.NText (XmlFront.bs "BEGIN:VCARD END:VCARD")]]]]].
+Example C03b_ex_union_through_data :
+  match exd_root with
+  | EncWbxml.NElt tag attrs ch =>
+    match EncWbxml.enc_wbxml EncWbxmlTables.main_btable (EncWbxmlDenote2.to_blang exd_L) exd_o [exd_root],
+          TreeBuildData.bis main_table 1 106 [] (mk_frame (EncWbxmlTblOk.tag_event tag) [] [] None) (kids_union EncWbxmlTables.main_btable exd_L exd_o tag ch) with
+    | EncWbxml.EOk bs, Some f' =>
+      l_id exd_L = 2101 /\ forallb TreeBuildData.iwf (kids_union EncWbxmlTables.main_btable exd_L exd_o tag ch) = true /\
+      tree_from_wbxml main_table 2101 0 1 bs = BOk (mk_wtree 2101 106 (Some (TElt (EncWbxmlTblOk.tag_event tag) [] (f_done f')))) /\
+      f_done f' = [TElt (TagTok 0 5 (XmlFront.bs "Add")) []
+                     [TElt (TagTok 0 20 (XmlFront.bs "Item")) []
+                        [TElt (TagTok 0 15 (XmlFront.bs "Data")) [] [TCData [TText (XmlFront.bs "BEGIN:VCARD END:VCARD")]]]]]
+    | _, _ => False
+    end
+  | _ => False
+  end.
+Proof. vm_compute. repeat split; reflexivity. Qed.
 
 (* C05c, without the restriction to Data-free documents — PARTIAL only in the generator's hypotheses (node_ok_g:
    names are XML names, text is XML characters, CDATA payloads ...; properties of the document's strings that WBXML
